@@ -271,6 +271,38 @@ fn run_weighted(acc: &mut Acc, seed: u64) {
             check!(acc, concat!("WeightedTreeIndex<", $name, ">"), t, WeightedTreeIndex<$W>, |d, r| d.sample(r) as u64, seed);
         }};
     }
+    // float trees whose weights were lowered back to zero: rounding can leave a tiny negative residue in a stored
+    // subtotal; such a tree is valid, sampleable and serialisable, so it must also come back
+    macro_rules! residue {
+        ($W:ty, $name:expr) => {{
+            let mut found = 0u64;
+            let mut tried = 0u64;
+            let fixed: Vec<$W> = vec![1.0, 0.1, 2.0, 0.1, 0.2, 0.5, 0.75];
+            for k in 0..400u64 {
+                let ws: Vec<$W> = if k == 0 {
+                    fixed.clone()
+                } else {
+                    let n = 3 + rng.below(9) as usize;
+                    (0..n).map(|_| ((rng.unit() * 0.999 + 0.001) * [1.0, 0.1, 0.3, 1e-3, 7.0][rng.below(5) as usize]) as $W).collect()
+                };
+                let Ok(mut t) = WeightedTreeIndex::<$W>::new(ws.clone()) else { continue };
+                let zeroed: Vec<usize> = if k == 0 { vec![1, 3, 4] } else { (0..ws.len()).filter(|_| rng.below(2) == 0).collect() };
+                for &i in &zeroed {
+                    let _ = t.update(i, 0.0);
+                }
+                tried += 1;
+                let has_negative = format!("{t:?}").contains("-");
+                if !(has_negative && t.is_valid()) || found >= 12 {
+                    continue;
+                }
+                found += 1;
+                check!(acc, concat!("WeightedTreeIndex<", $name, ">"), t, WeightedTreeIndex<$W>, |d, r| d.try_sample(r).map(|i| i as u64).unwrap_or(u64::MAX), seed);
+            }
+            emit(&json!({"ev": "c15_residue_trees", "wt": $name, "histories": tried, "valid_trees_with_negative_subtotal_round_tripped": found}));
+        }};
+    }
+    residue!(f32, "f32");
+    residue!(f64, "f64");
     w!(u8, "u8", |x| (x % 5) as u8);
     w!(i8, "i8", |x| (x % 3) as i8);
     w!(u16, "u16", |x| x as u16);
